@@ -59,8 +59,84 @@ macro_rules! agg_cell {
     }};
 }
 
+/// The degree tables TLC emits from Laws3.tla (`op = laws3`).
+pub struct Laws3 {
+    pub deg: BTreeMap<String, i32>,
+    pub dega: BTreeMap<String, i32>,
+    pub degb: BTreeMap<String, i32>,
+}
+impl Laws3 {
+    pub fn load(path: &str) -> Laws3 {
+        for v in read_ndjson(path) {
+            if get_str(&v, "op") == "laws3" {
+                let tab = |f: &str| -> BTreeMap<String, i32> {
+                    v[f].as_object()
+                        .unwrap_or_else(|| tool_error("laws3 table missing"))
+                        .iter()
+                        .map(|(k, d)| (k.clone(), d.as_i64().unwrap() as i32))
+                        .collect()
+                };
+                return Laws3 { deg: tab("deg"), dega: tab("dega"), degb: tab("degb") };
+            }
+        }
+        tool_error(&format!("no laws3 record in {path}"))
+    }
+    pub fn unit(&self, k: &str, u: f64, maxabs: i64) -> Unit {
+        let d = *self.deg.get(k).unwrap_or_else(|| tool_error(&format!("laws3 has no degree for {k}")));
+        let factor = u.powi(d);
+        Unit { factor, floor: factor * (maxabs.max(1) as f64).powi(d) }
+    }
+    pub fn unit2(&self, k: &str, ua: f64, ub: f64, ma: i64, mb: i64) -> Unit {
+        let (da, db) = (self.dega[k], self.degb[k]);
+        let factor = ua.powi(da) * ub.powi(db);
+        Unit { factor, floor: factor * (ma.max(1) as f64).powi(da) * (mb.max(1) as f64).powi(db.abs()) * 10.0 }
+    }
+}
+
+const U_F64_BIG: f64 = 123467.8;
+const U_F64_SMALL: f64 = 1.3e-4;
+const U_F32_BIG: f64 = 1234.5;
+const U_I32_BIG: f64 = 400_000_000.0;
+const U_I64_BIG: f64 = 1_500_000_000_000_000_000.0;
+
+/// the scale-bearing aggregations of one series measured in the unit `u`
+macro_rules! agg_unit_cell {
+    ($rep:expr, $case:expr, $key:expr, $e:expr, $mp:expr, $cell:expr, $mk:expr, $sum_obs:expr, $first_obs:expr, $laws:expr, $u:expr, $maxabs:expr, $with_sum:expr) => {{
+        let (rep, case, e, mp, laws): (&mut Report, &Value, &BTreeMap<String, Exp>, usize, &Laws3) = ($rep, $case, $e, $mp, $laws);
+        let cell = format!("{}@unit={:e}", $cell, $u);
+        let key = |f: &str| format!("{f}|mp={mp}|{}", $key);
+        macro_rules! run {
+            ($f:expr, $name:expr, $body:expr, $obs:expr) => {{
+                match catch(|| $body) {
+                    Ok(v) => {
+                        rep.check_unit($f, &key($f), &cell, &e[$name], $obs(v), laws.unit($name, $u, $maxabs), case);
+                    },
+                    Err(m) => rep.fail($f, &key($f), &cell, &format!("panicked: {m}"), case),
+                }
+            }};
+        }
+        // a sum is accumulated in the element type by design: not replayed in a unit that makes
+        // it leave an integer type
+        if $with_sum {
+            run!("vsum", "vsum", $mk.vsum(), $sum_obs);
+        }
+        run!("vfirst", "vfirst", $mk.vfirst(), $first_obs);
+        run!("vlast", "vlast", $mk.vlast(), $first_obs);
+        run!("vmean", "vmean", $mk.vmean(), o_f);
+        run!("vmean_var", "vmean_var_mean", $mk.vmean_var(mp).0, |m: f64| o_f(m));
+        run!("vmean_var", "vvar", $mk.vmean_var(mp).1, o_f);
+        run!("vvar", "vvar", $mk.vvar(mp), o_f);
+        run!("vstd", "vstd", $mk.vstd(mp), o_f);
+        run!("vskew", "vskew", $mk.vskew(mp), o_f);
+        run!("vkurt", "vkurt", $mk.vkurt(mp), o_f);
+        run!("vmin", "vmin", $mk.vmin(), $sum_obs);
+        run!("vmax", "vmax", $mk.vmax(), $sum_obs);
+    }};
+}
+
 pub fn replay(args: &Args) {
     let cases = read_ndjson(args.req("in"));
+    let laws = args.get("laws").map(Laws3::load);
     let mut rep = Report::new(args.get("prop").unwrap_or("C11"), args.req("out"));
     for v in &cases {
         match get_str(v, "op") {
@@ -69,14 +145,14 @@ pub fn replay(args: &Args) {
                 if rep.cases % 1500 == 1 {
                     rep.sample(v.clone());
                 }
-                replay_agg(&mut rep, v)
+                replay_agg(&mut rep, v, laws.as_ref())
             },
             "agg2" => {
                 rep.cases += 1;
                 if rep.cases % 1500 == 1 {
                     rep.sample(v.clone());
                 }
-                replay_agg2(&mut rep, v)
+                replay_agg2(&mut rep, v, laws.as_ref())
             },
             _ => {},
         }
@@ -84,7 +160,7 @@ pub fn replay(args: &Args) {
     rep.finish();
 }
 
-fn replay_agg(rep: &mut Report, v: &Value) {
+fn replay_agg(rep: &mut Report, v: &Value, laws: Option<&Laws3>) {
     let s = get_ints(v, "s");
     let mp = get_i64(v, "mp") as usize;
     let e = exps(v);
@@ -110,6 +186,37 @@ fn replay_agg(rep: &mut Report, v: &Value) {
         let vl: Vec<i64> = enc_vec(&s);
         agg_cell!(rep, v, skey, &e, mp, "Vec<i64> (owned)", vl.clone(), |x: Option<i64>| x.map(Obs::I).unwrap_or(Obs::Null),
             |x: Option<i64>| x.map(Obs::I).unwrap_or(Obs::Null));
+    }
+
+    // ---- the same series in other units of measurement (Laws3.tla) ----
+    if let Some(l) = laws {
+        let ma = max_abs(&s);
+        let oi64 = |x: Option<i64>| x.map(|v| Obs::F(v as f64)).unwrap_or(Obs::Null);
+        let oi32 = |x: Option<i32>| x.map(|v| Obs::F(v as f64)).unwrap_or(Obs::Null);
+        let ooi32 = |x: Option<Option<i32>>| oi32(x.flatten());
+        let of32 = |x: Option<f32>| o_of(x);
+        let vb: Vec<f64> = enc_vec_unit(&s, U_F64_BIG);
+        agg_unit_cell!(rep, v, skey, &e, mp, "Vec<f64>.titer()", vb.titer(), of64, of64, l, U_F64_BIG, ma, true);
+        let vs: Vec<f64> = enc_vec_unit(&s, U_F64_SMALL);
+        agg_unit_cell!(rep, v, skey, &e, mp, "Vec<f64> (owned)", vs.clone(), of64, of64, l, U_F64_SMALL, ma, true);
+        let vob: Vec<Option<f64>> = enc_vec_unit(&s, U_F64_BIG);
+        agg_unit_cell!(rep, v, skey, &e, mp, "Vec<Option<f64>>.titer()", vob.titer(), of64, ooptf, l, U_F64_BIG, ma, false);
+        if <f32 as InElem>::fits(ma, U_F32_BIG) {
+            let v32: Vec<f32> = enc_vec_unit(&s, U_F32_BIG);
+            agg_unit_cell!(rep, v, skey, &e, mp, "Vec<f32>.titer()", v32.titer(), of32, of32, l, U_F32_BIG, ma, true);
+        }
+        if <i32 as InElem>::fits(ma, U_I32_BIG) {
+            let voi: Vec<Option<i32>> = enc_vec_unit(&s, U_I32_BIG);
+            agg_unit_cell!(rep, v, skey, &e, mp, "Vec<Option<i32>>.titer()", voi.titer(), oi32, ooi32, l, U_I32_BIG, ma, false);
+            if nullfree {
+                let vi: Vec<i32> = enc_vec_unit(&s, U_I32_BIG);
+                agg_unit_cell!(rep, v, skey, &e, mp, "Vec<i32>.titer()", vi.titer(), oi32, oi32, l, U_I32_BIG, ma, false);
+            }
+        }
+        if nullfree && <i64 as InElem>::fits(ma, U_I64_BIG) {
+            let vl: Vec<i64> = enc_vec_unit(&s, U_I64_BIG);
+            agg_unit_cell!(rep, v, skey, &e, mp, "Vec<i64> (owned)", vl.clone(), oi64, oi64, l, U_I64_BIG, ma, false);
+        }
     }
 
     // counts of a given value (null counts the nulls)
@@ -166,7 +273,7 @@ fn replay_agg(rep: &mut Report, v: &Value) {
     }
 }
 
-fn replay_agg2(rep: &mut Report, v: &Value) {
+fn replay_agg2(rep: &mut Report, v: &Value, laws: Option<&Laws3>) {
     let s = get_ints(v, "s");
     let t = get_ints(v, "t");
     let mp = get_i64(v, "mp") as usize;
@@ -189,6 +296,41 @@ fn replay_agg2(rep: &mut Report, v: &Value) {
     run!("vcorr_pearson", "vcorr", "Vec<f64>x2", a.titer().vcorr_pearson::<f64, _, _>(b.titer(), mp), o_f);
     run!("vcorr_pearson", "vcorr", "Vec<Option<f64>>x2->Option<f64>", ao.titer().vcorr_pearson::<Option<f64>, _, _>(bo.titer(), mp), |x: Option<f64>| o_of(x));
     run!("vcorr_pearson", "vcorr", "owned Vec<f64>x2", a.clone().vcorr_pearson::<f64, _, _>(b.clone(), mp), o_f);
+    // ---- the same two series in other units of measurement (Laws3.tla) ----
+    if let Some(l) = laws {
+        let (ma, mb) = (max_abs(&s), max_abs(&t));
+        macro_rules! urun {
+            ($f:expr, $name:expr, $T:ty, $ua:expr, $ub:expr) => {{
+                if <$T as InElem>::fits(ma, $ua) && <$T as InElem>::fits(mb, $ub) {
+                    let (ua, ub): (Vec<$T>, Vec<$T>) = (enc_vec_unit(&s, $ua), enc_vec_unit(&t, $ub));
+                    let cell = format!("Vec<{}>x2@units={:e},{:e}", <$T as InElem>::NAME, $ua, $ub);
+                    let un = l.unit2($name, $ua, $ub, ma, mb);
+                    if $name == "vcov" {
+                        match catch(|| ua.titer().vcov(ub.titer(), mp)) {
+                            Ok(x) => { rep.check_unit($f, &k($f), &cell, &e[$name], o_f(x), un, v); },
+                            Err(m) => rep.fail($f, &k($f), &cell, &format!("panicked: {m}"), v),
+                        }
+                    } else {
+                        match catch(|| ua.titer().vcorr_pearson::<f64, _, _>(ub.titer(), mp)) {
+                            Ok(x) => { rep.check_unit($f, &k($f), &cell, &e[$name], o_f(x), un, v); },
+                            Err(m) => rep.fail($f, &k($f), &cell, &format!("panicked: {m}"), v),
+                        }
+                    }
+                }
+            }};
+        }
+        urun!("vcov", "vcov", f64, U_F64_BIG, U_F64_SMALL);
+        urun!("vcov", "vcov", f64, U_F64_SMALL, U_F64_SMALL);
+        urun!("vcov", "vcov", f32, U_F32_BIG, U_F32_BIG);
+        urun!("vcorr_pearson", "vcorr", f64, U_F64_SMALL, U_F64_SMALL);
+        urun!("vcorr_pearson", "vcorr", f64, U_F64_BIG, U_F64_SMALL);
+        if !has_null(&s) && !has_null(&t) {
+            urun!("vcov", "vcov", i32, U_I32_BIG, U_I32_BIG);
+            urun!("vcorr_pearson", "vcorr", i32, U_I32_BIG, 1.0);
+            urun!("vcorr_pearson", "vcorr", i64, U_I64_BIG, U_I64_BIG);
+        }
+    }
+
     // the second series as a mask over {0, 1, null}
     let mf: Vec<f64> = enc_vec(&t);
     let mb: Vec<Option<bool>> = t.iter().map(|x| if *x == NULL { None } else { Some(*x == 1) }).collect();
